@@ -347,7 +347,7 @@ type c13Case struct {
 
 func c13Round(r *Run, rng *gen.Rng, st *c13Stats, corpus []string, roundSize, sweepN int) error {
 	b := c13Budgets()
-	mounts := []string{"/sim/m", "/sim/m", "/w/my proj", "/a/b/c/d", "/m", "/home/u/.dotfiles/p", "/w/proj-1.2/src", "/w/projet-été/src", "/w/backup-2026-09-24T10:30:00/p", "/w/greeter:v2", "/w/the quick brown fox jumps over the lazy dog_0123456789-h.tsh/p"}
+	mounts := []string{"/sim/m", "/sim/m", "/w/my proj", "/a/b/c/d", "/m", "/home/u/.dotfiles/p", "/w/proj-1.2/src", "/w/projet-été/src", "/w/backup-2026-09-24T10:30:00/p", "/w/greeter:v2", "/w/copy\\2/p", "/w/say \"hi\"/p", "/w/the quick brown fox jumps over the lazy dog_0123456789-h.tsh/p"}
 	exes := []string{"/sim/x", "/opt/tsh/bin", "/sim/m/bin"}
 	mk := func(gw *gen.GenWorld, family, corrupt string) c13Case {
 		mount, exe := rng.Pick(mounts), rng.Pick(exes)
